@@ -13,7 +13,13 @@ DEPTH2 = [
     ["reset_index", "rename_ab"], ["set_index_a", "sort_a"], ["filt_vs_mean", "assign_z"], ["concat_ax1", "assign_z"], ["join_agg", "reset_index"],
     ["merge_self_agg", "rename_ab"], ["assign_z", "shuffle_a"], ["assign_z", "set_index_u"], ["assign_z", "gb_a_agg"], ["assign_z", "merge_T2_left"],
     ["col_b", "s_rename"], ["col_b", "to_frame"], ["a_plus_b", "s_rename"], ["index", "unique"], ["shift1", "assign_z"],
+    # top-n rewrites: the chunk function receives the partition object itself
+    ["sort_u", "head3"], ["sort_a", "head3"], ["set_index_u", "head3"], ["sort_u", "tail3"], ["set_index_u", "tail3"], ["nlargest2_u", "assign_z"],
 ]
+# programs run on a PERSISTED source too (partition objects shared between queries and held in the graph)
+PERSISTED = [["sort_u", "head3"], ["sort_a", "head3"], ["set_index_u", "head3"], ["sort_u", "tail3"], ["nlargest2_u"], ["nsmallest3_b"], ["assign_z"], ["assign_over_a"],
+             ["fillna0"], ["cumsum"], ["where"], ["dropna_b"], ["sort_u"], ["set_index_u"], ["shuffle_a"], ["gb_a_agg"], ["rename_ab"], ["reset_index"], ["dropdup_a"], ["map_partitions"],
+             ["astype_f"], ["merge_T2_inner"], ["shift1"], ["clip"], ["replace"], ["mask"]]
 
 
 def evaluate(case):
@@ -176,7 +182,11 @@ def run(ctx):
                 cases.append({"src": src, "ops": ops, "fuse": fuse, "cap": cap})
             if any(o in ("shuffle_a", "shuffle_a_np2", "sort_u", "sort_a", "set_index_u", "set_index_a", "merge_T2_inner", "merge_T2_left", "dropdup", "dropdup_a", "gb_a_sum_so2", "unique", "value_counts", "merge_self_agg", "join_agg") for o in ops):
                 cases.append({"src": src, "ops": ops, "fuse": True, "method": "disk", "cap": cap})
-    ctx.rule = (f"{len(progs)} programs (every alphabet operation + pairs chosen for in-place-style tasks and shared intermediates) x fused/unfused plan x shuffle method; "
+    for ops in PERSISTED:
+        if all(o in O.OPS for o in ops):
+            for fuse in (True, False):
+                cases.append({"src": "T:p2", "ops": ops, "fuse": fuse, "cap": cap})
+    ctx.rule = (f"{len(progs)} programs (every alphabet operation + pairs chosen for in-place-style tasks and shared intermediates) x fused/unfused plan x shuffle method, plus {len(PERSISTED)} programs on a persisted source; "
                 f"for each graph ALL linear extensions are executed when there are <= {cap}, otherwise up to {cap} trace representatives under the adjacent-commutation reduction "
                 "(dependence = shared argument key or direct dependency); after every task the deep fingerprint of every live result, of the user's pandas objects and of "
                 "the source frames is re-checked; results of all schedules, of 3 repeated compute() calls and of threaded runs (2, 8 workers) must agree; "
